@@ -19,7 +19,7 @@ def prop(pid, level, technique, text, note, claimed=True, reason=None):
 
 prop("C01", "model_checking",
      "exhaustive enumeration of all ordered pairs of reachable replica states x initiator x backend x reconciliation parameters, each session executed on the real code and compared with the reference join",
-     "Every ordered pair of replica states reachable from small subsets of the entry universe is reconciled by the real Replica::sync_* functions (memory and file-backed redb, every parameter setting) and must terminate, converge to the reference join, mirror counters, report in its outcome exactly the entries and per-author newest timestamps the messages carried, and be followed by an empty second session.",
+     "Every ordered pair of replica states reachable from small subsets of the entry universe is reconciled by the real Replica::sync_* functions (memory and file-backed redb, every parameter setting) and must terminate, converge to the reference join, mirror counters, report in its outcome exactly the entries and per-author newest timestamps the messages carried, be followed by an empty second session, and — after replica A's document is removed and created again in the same store — be restored by one more session initiated by either side.",
      "Bounded: subsets of <=2 (quick) / <=3 (thorough) entries plus a large-state family; blake3/XOR fingerprint collisions and values outside the alphabet are not covered.")
 prop("C02", "model_checking",
      "exhaustive enumeration of all operation sequences up to a depth over a small entry alphabet on the real replica, compared step by step with a reference model and with the from-scratch definition",
@@ -27,7 +27,7 @@ prop("C02", "model_checking",
      "Bounded depth and alphabet (keys '', a, a\\xff, ab, b, \\xff, \\xff\\xff; 3 timestamps; live/other-hash/tombstone); entries differing only in len are outside the alphabet.")
 prop("C08", "model_checking",
      "differential exhaustive enumeration: every pair of reachable states x parameter setting reconciled on in-memory redb, file-backed redb and an ordered-map reference backend driven by the crate's own algorithm (byte-identical transcripts), plus every range of an identifier lattice against the set-theoretic definitions of the storage primitives",
-     "Relational check on the real code: the same sessions on three backends must produce byte-identical serialized protocol messages and final sets; every storage primitive of StoreInstance is compared with its ordered-map definition on every reachable state and every (x,y) of a 24-point lattice including wrap-around and x=y.",
+     "Relational check on the real code: the same sessions on three backends must produce byte-identical serialized protocol messages and final sets; every storage primitive of StoreInstance is compared with its ordered-map definition on every reachable state and every (x,y) of a 24-point lattice including wrap-around and x=y, and with the empty set's after the document was removed and created again.",
      "Bounded states (<=3 offered entries, plus a 7..9-entry family); ranges inside the document's namespace; the reference backend is the definition (ascending identifier order), as in the crate's own test stand-in.")
 prop("C09", "exploration",
      "exhaustive enumeration: every frame of real session transcripts under every two-way (and small three-way) chunking and every truncation; every decoder on all byte strings up to 2/3 bytes and on every single-byte replacement of valid encodings, decoded values exercised on the real code; pinned encodings against an independent hand-written layout encoder",
@@ -35,15 +35,15 @@ prop("C09", "exploration",
      "'Arbitrary bytes' is replaced by its exhaustive small-scope counterpart; quick tier uses a 4-value subset beyond the first 48 bytes of each encoding.")
 prop("C10", "fault_enumeration",
      "exhaustive enumeration of peer scripts (every sequence of <=4 (quick) / <=5 (thorough) steps over a menu of correct and hostile frames) against the real acceptor and the real initiator over in-memory streams, plus every placement of one local fault (close / disable sync / actor shutdown) or one stream cut inside a frame before each protocol step of real-vs-real sessions, plus the exported transport entry points over loopback QUIC under every accept answer x local fault and against scripted hostile peers",
-     "BobState::run and run_alice are driven over duplex streams by a scripted peer that owns a real replica (so 'correct next frame' is always available) and deviates at every step in every way of the menu; a frame relay injects one local fault before every incoming frame on either side. Both ends must return within the deadline without panic, into_outcome() must be callable after every outcome, a declined request leaves the store unchanged, and counters mirror on success. The relay also ends a stream in the middle of every frame (the cut side must fail). Family D runs the exported connect_and_sync against handle_connection over real QUIC on loopback for every accept answer x every local fault before the session; family E faces each of them with a scripted hostile QUIC peer (connection closed before / after opening the stream, abrupt close after a correct frame, garbage frame, correct request and nothing more, unknown document / Abort).",
+     "BobState::run and run_alice are driven over duplex streams by a scripted peer that owns a real replica (so 'correct next frame' is always available) and deviates at every step in every way of the menu; a frame relay injects one local fault before every incoming frame on either side. Both ends must return within the deadline without panic, into_outcome() must be callable after every outcome, a declined request leaves the store unchanged, and counters mirror on success. The relay also ends a stream in the middle of every frame (the cut side must fail). The scripted initiator can also send an Init whose message already carries a signed entry (a declined request must not store it). Family D runs the exported connect_and_sync against handle_connection over real QUIC on loopback for every accept answer x every local fault before the session; family E faces each of them with a scripted hostile QUIC peer (connection closed before / after opening the stream, abrupt close after a correct frame, garbage frame, correct request and nothing more, unknown document / Abort).",
      "In-memory duplex transport for families A-C, loopback QUIC (two real endpoints per scenario) for D and E; deadlines only as hang detectors with a 10x re-run.")
 prop("C11", "model_checking",
      "explicit-state breadth-first search over the real coordination handlers of two LiveActors (dial decisions, request delivery/loss, accept/decline, independent completion of both session ends, captured resync dials), canonical state from the implementation's coordination snapshot plus in-flight dials, invariants S1-S5 on every state",
-     "Two real LiveActors (never run) are driven through sync_with_peer, accept_sync_request and the two completion handlers with synthetic session results; every interleaving of up to 3 (quick) / 4 (thorough) dials is explored; at most one session in progress, crossing dials resolve to exactly one accepted, a refused sync report yields exactly one follow-up at the end of the running session, every quiescent state is Idle on both nodes, unsynced documents are declined NotFound; the search is repeated with one node leaving the document, with a content download of the document queued at both nodes, and with triggers and requests delivered as actor messages (neighbour up, a neighbour's sync report carrying news, accept request with its reply channel) through on_actor_message.",
+     "Two real LiveActors (never run) are driven through sync_with_peer, accept_sync_request and the two completion handlers with synthetic session results; every interleaving of up to 3 (quick) / 4 (thorough) dials is explored; at most one session in progress, crossing dials resolve to exactly one accepted, a refused sync report yields exactly one follow-up at the end of the running session, every quiescent state is Idle on both nodes, unsynced documents are declined NotFound; the search is repeated with one node leaving the document, with a content download of the document queued at both nodes, and with triggers and requests delivered as actor messages (neighbour up, a neighbour's sync report carrying news, accept request with its reply channel) through on_actor_message, and with the application calling the real start_sync again for the document while dials are in flight; short histories are explored as a plain tree before state merging starts.",
      "Network abstracted to deliver/lose and independent completions; besides the coordination state the handlers read only whether a download of the document is queued (explored both ways) and the subscriber list (empty).")
 prop("C12", "model_checking",
      "exhaustive enumeration of all request sequences up to a depth (local/remote writes, messages of a reconciliation session with a real peer, subscriber churn, policy changes) through the real store actor, every subscriber's drained event list compared with the reference model after every acknowledged request",
-     "All sequences of <=4 (quick) / <=5 (thorough) requests over a 17-symbol alphabet through SyncHandle with up to 3 subscribers; per subscriber exactly one event per applied entry, in application order, carrying the entry, origin, peer, content status (the peer and our node answer differently about the same content, through real content-status callbacks; our replies must carry our node's answer) and the policy's download flag; nothing for rejected/superseded entries; unsubscribing or dropping one subscriber leaves the others unaffected.",
+     "All sequences of <=4 (quick) / <=5 (thorough) requests over a 17-symbol alphabet through SyncHandle with up to 3 subscribers; per subscriber exactly one event per applied entry, in application order, carrying the entry, origin, peer, content status (the peer and our node answer differently about the same content, through real content-status callbacks; our replies must carry our node's answer) and the policy's download flag; nothing for rejected/superseded entries; unsubscribing or dropping one subscriber leaves the others unaffected; a subscriber that does not read for 2.5 s (thorough 12 s) while entries are written still gets every event and stays subscribed.",
      "Bounded depth; events compared after the acknowledging reply.")
 prop("C13", "model_checking",
      "exhaustive enumeration of all operation sequences up to a depth (inserts of a two-author universe, document removal and re-creation) on the real store against reference heads, plus exhaustive enumeration of small author-head sets x all size limits for the codec",
@@ -51,11 +51,11 @@ prop("C13", "model_checking",
      "Bounded depth/alphabet; limit 0 excluded (unsatisfiable); any key attaining the maximum is accepted as the head's key.")
 prop("C03", "exploration",
      "exhaustive enumeration of a single-fault tamper alphabet (every byte position x 4 alterations, signature substitutions, foreign keys, boundary timestamps, emptiness combinations) x both ingress paths x every position of hand-assembled reconciliation messages, against an independent acceptance predicate",
-     "Every candidate of the tamper alphabet is presented to the real replica as a remote insert and inside crafted reconciliation messages; acceptance must equal an independent predicate (own canonical encoder, library signature check, namespace, future bound, emptiness), rejected candidates must leave records, both index paths, heads and content hashes identical and produce no event while the rest of the message is applied.",
+     "Every candidate of the tamper alphabet is presented to the real replica as a remote insert and inside crafted reconciliation messages; acceptance must equal an independent predicate (own canonical encoder, library signature check, namespace, future bound, emptiness), every candidate is also presented to a replica that already holds the untampered original; rejected candidates must leave records, both index paths, heads and content hashes identical and produce no event while the rest of the message is applied.",
      "ed25519 is trusted; single-fault candidates only; messages of 1..3 parts with 1..2 entries per part.")
 prop("C04", "model_checking",
      "explicit-state breadth-first search over N real replicas (local writes with skewed clocks, arbitrary deliveries of written entries, reconciliation sessions cut after k messages, restarts from disk), canonical state = written set + every replica's dump, with a closing phase over every spanning tree and the complete graph on every distinct state",
-     "For N = 2..3 (quick) and 2..5 (thorough) replicas every history up to the depth bound is executed on real stores; after every event each replica holds only written entries and only moves upward in the merge order; from every distinct state, complete sessions along every spanning tree (and the complete graph) converge within N passes to the merge of all accepted local writes on every replica.",
+     "For N = 2..3 (quick) and 2..5 (thorough) replicas every history up to the depth bound is executed on real stores; after every event each replica holds only written entries and only moves upward in the merge order; from every distinct state, complete sessions along every spanning tree (and the complete graph) converge within N passes to the merge of all accepted local writes on every replica; family H runs every history of <=3 (thorough 4) writes and complete sessions (plus the two-write histories one step deeper) on three replicas held open by store actors for the whole history, closing along four topologies.",
      "Gossip abstracted as unreliable broadcast; small op alphabet (ins a, ins ab, ins '', del a) x 3 timestamps; replicas 0 and 2 share an author.")
 prop("C05", "exploration",
      "exhaustive product of all small reachable replica states (incl. stale by-key index rows) x the full query parameter product, each result compared with a list-comprehension oracle over the reference dump",
@@ -67,19 +67,19 @@ prop("C06", "fault_enumeration",
      "Crash = process kill (file image as the OS holds it); power loss / torn sectors / crashes inside redb's commit are redb's contract.")
 prop("C07", "model_checking",
      "explicit-state breadth-first search (canonical state taken from the implementation, de-duplicated) over capability imports, opens, closes, write attempts, secret export and store reopen on the real Store and on the real store actor, against a max-capability reference model",
-     "Every (state, event) edge of the capability state machine for two documents up to depth 7/6 (quick) and 10/9 (thorough) is executed on a file-backed Store and through SyncHandle; listed kinds, export_secret_key, write outcomes and both documents' entries must equal the model after every event; importing for one document must not change the other.",
+     "Every (state, event) edge of the capability state machine for two documents up to depth 7/6 (quick) and 10/9 (thorough) is executed on a file-backed Store and through SyncHandle; (the direct search includes taking a handle with open_replica and keeping the document marked open while capabilities are imported and further handles write); listed kinds, export_secret_key, write outcomes, the capability a new handle comes with and both documents' entries must equal the model after every event; importing for one document must not change the other; the same state machine through the docs API of a real Engine (histories of <=4, thorough 5, events); histories of up to 3 (thorough 4) events are explored as a plain tree before state merging starts.",
      "Two documents, one local and one remote key per document.")
 prop("C14", "model_checking",
      "explicit-state breadth-first search over the request alphabet of the store actor for two documents, every history executed sequentially and pipelined on the real SyncHandle/actor thread, every reply compared with a handle-counting reference model, shutdown store compared with the model",
-     "Every (state, request) edge up to depth 4 (quick) / 6 (thorough) over 40 requests (including setting a policy / registering a peer, which fail inside the store on a missing document and must change nothing); replies, get_state, and the store returned by shutdown (documents, entries, policies, peers) must equal the model; the transaction kind of the actor's store is part of the canonical state; pipelined enqueueing must give the same replies as awaiting each one (request order).",
+     "Every (state, request) edge up to depth 4 (quick) / 6 (thorough) over 40 requests (including setting a policy / registering a peer, which fail inside the store on a missing document and must change nothing); replies, get_state, and the store returned by shutdown (documents, entries, policies, peers) must equal the model; the transaction kind of the actor's store is part of the canonical state; pipelined enqueueing must give the same replies as awaiting each one (request order); family S queues a second client's stop request at every position among <=2 (thorough 3) pipelined requests (every request answered, the ones behind the stop with an error, the returned store = the state before the stop); family A stalls the actor, queues 1-2 (thorough 3) requests whose futures are dropped at once and then observes (replies and returned store reflect the abandoned requests).",
      "Client concurrency is reduced to enqueue orders (single consumer, FIFO queue); drop_replica modelled as the API defines it.")
 prop("C15", "exploration",
      "exhaustive enumeration of all small policies x all small keys against the two-line definition, all small filters through their textual form, and set/get persistence incl. file reopen",
-     "7814 policies (both kinds, <=2 exact/prefix filters over bytes {a,b,':',0xff,0x00}, length <=2) x 156 keys for matches; every filter Display->FromStr; set/get on existing and missing documents in memory and through reopen; should_download of real remote-insert events for all policies with <=1 filter x all keys; every history of <=3 (thorough 4) policy changes over 6 policies x 2 documents incl. a return to the default, a missing document and reopen.",
+     "7814 policies (both kinds, <=2 exact/prefix filters over bytes {a,b,':',0xff,0x00}, length <=2) x 156 keys for matches; every filter Display->FromStr; set/get on existing and missing documents in memory and through reopen; should_download of real remote-insert events for all policies with <=1 filter x all keys; every history of <=3 (thorough 4) policy changes over 6 policies x 2 documents incl. a return to the default, a missing document and reopen; the same histories through the store actor with both documents kept open and subscribed, a fresh entry after every step on both ingress paths carrying the download flag of the policy in force.",
      "Alphabet-bounded filters and keys.")
 prop("C16", "model_checking",
      "explicit-state breadth-first search over writes, prefix deletion, peers, policies, open/close, removal and re-creation on a store holding five documents (three with byte-neighbouring ids), from the empty and from a populated state, with a per-document reference and a before/after differential for all other documents",
-     "Every event sequence up to depth 3/4 (quick) and 5 (thorough) over 41 events; after each event every document's entries (both index paths), heads, peers, policy and listing must equal its reference, every other document must be byte-identical to before, removal is refused iff open, and content_hashes() equals the hashes of all held entries; a real Engine with a GC protect handler is asked for the live set after every step of three scripts (0..140 / 600 writes, prefix deletions, duplicate contents, removals) and must hand the collector exactly the hashes held.",
+     "Every event sequence up to depth 3/4 (quick) and 5 (thorough) over 41 events; after each event every document's entries (both index paths), heads, peers, policy and listing must equal its reference, every other document must be byte-identical to before, removal is refused iff open, and content_hashes() equals the hashes of all held entries; a real Engine with a GC protect handler is asked for the live set after every step of three scripts (0..140 / 600 writes, prefix deletions, duplicate contents, removals) and must hand the collector exactly the hashes held, and must stop the collector rather than hand it a smaller set once the docs engine is shut down.",
      "Neighbour-id documents are populated below the validation layer (no key pair exists for chosen ids).")
 prop("C17", "model_checking",
      "exhaustive enumeration of all registration sequences up to a depth plus every (state, event) edge of the complete 3620-state MRU graph on the real store, against a Vec MRU of capacity 5, incl. reopen of a file-backed store at every prefix",
